@@ -415,12 +415,18 @@ impl Vm {
 
         // Compile formal args into a list of symbols
         let (formal_args, is_vararg) = self.compile_formal_arguments(formal_args_ast)?;
-        let free_symbols = free_symbols(expr)?
+        let free_symbols = free_symbols(expr)?;
+        #[cfg(feature = "verif-hooks")]
+        let free_symbols = crate::vm::verif::order_symbols(free_symbols);
+        let free_symbols = free_symbols
             .iter()
             .inspect(|it| trace!("free: {}", it))
             .map(|sym| self.heap.put_cell(sym))
             .collect::<Vec<VCell>>();
-        let internally_defined = internally_defined_symbols(body)?
+        let internally_defined = internally_defined_symbols(body)?;
+        #[cfg(feature = "verif-hooks")]
+        let internally_defined = crate::vm::verif::order_symbols(internally_defined);
+        let internally_defined = internally_defined
             .iter()
             .inspect(|it| trace!("internal: {}", it))
             .map(|sym| self.heap.put_cell(sym))
